@@ -417,7 +417,8 @@ def ob_trigger(kind):
         goal = zint(d2.fields["rar_iter_nb"]) == z3.If(fires, J + 100, J - 100)
         return result(name, [("dispatch", goal)], BASE_PRE.of(kind) + list(o.pc), ex, t0, extra_axioms=counting_lemma(ex, kind),
                       canary=zint(d2.fields["rar_iter_nb"]) == z3.If(fires, J - 100, J + 100))
-    return FnObligation(name, run, [RAR + "trigger_rar", RAR + "_proceed_to_rar"])
+    return FnObligation(name, run, [RAR + "trigger_rar", RAR + "_proceed_to_rar"],
+                        native_fallback=lambda: _safe_native(native_trigger_returns_params) or native_rar_monitor({}))
 
 
 def ob_no_rar():
